@@ -123,6 +123,11 @@ func (obj Object) CompletionAtPos(ctx context.Context, pos hcl.Pos) []lang.Candi
 				// it means the attribute is likely quoted
 				if pos.Byte >= attrRange.Start.Byte {
 					prefixLen := pos.Byte - attrRange.Start.Byte
+					if prefixLen > len(attrName) {
+						// a quoted key with escape sequences is longer
+						// as written than the name it stands for
+						prefixLen = len(attrName)
+					}
 					prefix = attrName[0:prefixLen]
 				}
 
